@@ -14,6 +14,7 @@ def main(tier):
     dep.accumulators(P, rep)
     dep.surface_pairing(P, rep)
     dep.surface_fallback(P, rep)
+    rep.attempt(dep.triangle_pairing, P, rep)      # vertices, coefficients and reported index of one triangle
     dep.alias_callers(P, rep)
     footprint.alias_wrappers(P, rep)
     rep.assumptions.append("both longitude buffers of the spherical box dominate b/cos(latitude) at the two trench ends; whether the margin 2*pi "
